@@ -72,6 +72,10 @@ static void load_with_oracle_inner(int entry, int prov, const std::string &bytes
   entry %= 8;
   std::string DOC = bytes;
   if (entry == 2 || entry == 3) DOC = bytes.substr(0, bytes.find('\0'));
+  // entries 0/1, one time in seven: the caller hands over ZERO bytes of a buffer that holds a document (an empty answer in a receive buffer used
+  // before; exact-size heap copy without terminator): the text handed over is empty, whatever lies behind the pointer
+  std::unique_ptr<char[]> zbuf; bool zero_len = (entry == 0 || entry == 1) && !bytes.empty() && bytes.size() % 7 == 3;
+  if (zero_len) { zbuf.reset(new char[bytes.size()]); memcpy(zbuf.get(), bytes.data(), bytes.size()); DOC.clear(); st.cls("zero-length-text-in-a-buffer-that-holds-a-document"); }
   jwk_set_t *set = nullptr; size_t before = 0;
   // the existing set holds one good key; every second time it also carries the error of an earlier load of text that was not JSON (never cleared)
   bool stale_error = false;
@@ -82,8 +86,8 @@ static void load_with_oracle_inner(int entry, int prov, const std::string &bytes
   bool via_create = DOC.size() & 1;
   jwk_set_t *r = nullptr;
   switch (entry) {
-  case 0: r = jwks_create_strn(DOC.data(), DOC.size()); break;
-  case 1: r = jwks_load_strn(set, DOC.data(), DOC.size()); break;
+  case 0: r = zero_len ? jwks_create_strn(zbuf.get(), 0) : jwks_create_strn(DOC.data(), DOC.size()); break;
+  case 1: r = zero_len ? jwks_load_strn(set, zbuf.get(), 0) : jwks_load_strn(set, DOC.data(), DOC.size()); break;
   case 2: r = jwks_create(DOC.c_str()); break;
   case 3: r = jwks_load(set, DOC.c_str()); break;
   case 4: { FILE *f = fmemopen((void *)(DOC.empty() ? "" : DOC.data()), DOC.size(), "r"); if (!f) { return; } r = via_create ? jwks_create_fromfp(f) : jwks_load_fromfp(nullptr, f); fclose(f); break; }
